@@ -40,6 +40,8 @@ def run(ctx):
     _c01.r19_floored(ctx, 'R19.10')
     from . import c17 as _c17
     _c17.r176(ctx, 'R19.11')
+    from . import findings3 as _f3
+    _f3.kind_of_appended_values(ctx, 'R19.12')
     _cs.general_rules(ctx, 'R19', ['writer.write', 'writer.write_multi', 'writer.partition_on_columns', 'writer.make_part_file', 'api.ParquetFile.write_row_groups', 'api.ParquetFile._write_common_metadata', 'writer.write_common_metadata', 'api.ParquetFile._dtypes'])
     ar.open_close_pairing_rule(ctx, 'R19.6')
     ar.single_pass_data_rule(ctx, 'R19.7')
